@@ -67,8 +67,8 @@ type Prop struct {
 	Exhaustive  func(tier string) bool
 	Flavours    func(tier string) []string // first one is the primary flavour
 	Families    func(c *Config) []Family
-	Required    []string                                          // buckets that must be non-empty in the primary flavour
-	Finish      func(c *Config, r *Result)                        // child side, after all families
+	Required    []string                                             // buckets that must be non-empty in the primary flavour
+	Finish      func(c *Config, r *Result)                           // child side, after all families
 	Merge       func(tier string, rs map[string]*Result) []Violation // parent side, cross-flavour oracle
 }
 
